@@ -138,33 +138,46 @@ structure TFile where
 def TFile.frames (f : TFile) : List Bytes := fileFrames f.name f.ext f.kind f.mode f.chunks
 def TFile.path (f : TFile) : Str := f.name ++ [46] ++ f.ext
 
+/-- the report of a listing / extraction: one line per file with its size (sum of its data blocks),
+    its number of data blocks and the ordinal of its leader among all blocks; `bi` = blocks before -/
+def readLines (v : Bool) : Nat → List TFile → List Str
+  | _, [] => []
+  | bi, f :: r => lineOf v ⟨f.name, f.ext, f.kind, f.mode⟩ (bi + 1) (f.chunks.map List.length).sum f.chunks.length
+      :: readLines v (bi + (f.chunks.length + 2)) r
+
 /-- the extractor over the blocks of a list of files, however each file was cut into data blocks:
     every file written once, in order, its content the concatenation of its data blocks -/
 theorem readLoop_tfiles (dir : Str) (fs : List TFile) : ∀ (s : RState),
     (∀ f ∈ fs, NameOK f.name f.ext) →
     ∃ s', readLoop true dir s (fs.flatMap TFile.frames) = (.ret 0, s')
       ∧ s'.writes = s.writes ++ fs.map (fun f => (pathJoin dir f.path, f.chunks.flatten))
-      ∧ (s.l.verbose = false → s'.out = s.out ++ fs.map TFile.path) := by
+      ∧ s'.out = s.out ++ readLines s.l.verbose s.l.blockIndex fs := by
   induction fs with
-  | nil => intro s _; exact ⟨s, by simp [readLoop], by simp, by simp⟩
+  | nil => intro s _; exact ⟨s, by simp [readLoop], by simp, by simp [readLines]⟩
   | cons f rest ih =>
     intro s hn
     simp only [List.flatMap_cons, TFile.frames]
-    obtain ⟨l', e, hv, _⟩ := readLoop_file dir f.name f.ext f.kind f.mode f.chunks (hn f (by simp)) s (rest.flatMap TFile.frames)
+    obtain ⟨l', e, hv, hbi⟩ := readLoop_file dir f.name f.ext f.kind f.mode f.chunks (hn f (by simp)) s (rest.flatMap TFile.frames)
     rw [e]
     obtain ⟨s', e2, hw, ho⟩ := ih _ (fun f' hf' => hn f' (by simp [hf']))
     refine ⟨s', e2, ?_, ?_⟩
     · rw [hw]; simp [TFile.path]
-    · intro hq
-      rw [ho (by simp [hv, hq])]
-      simp [lineOf, endLine, hq, TFile.path]
+    · rw [ho]
+      simp only [hv, hbi, readLines, List.append_assoc, List.singleton_append]
+
+theorem readLines_quiet : ∀ (fs : List TFile) (bi : Nat), readLines false bi fs = fs.map TFile.path := by
+  intro fs
+  induction fs with
+  | nil => intro bi; rfl
+  | cons f r ih => intro bi; simp [readLines, ih, lineOf, endLine, TFile.path]
 
 /-- **C08 (list and extract recover exactly the files the tape encodes)**: a tape written by anyone —
     an idle gap, then for each file a leader block carrying its name, any number of data blocks of any
     sizes up to 254, an end block; every block behind a run of at least three 0x01 and the marker,
     followed by an idle gap of any length without 0x3C; anything without 0x3C after the last block —
     is extracted as exactly those files: names, order, and as content the concatenation of the data
-    blocks; the quiet listing names the same files in the same order. -/
+    blocks; list and extract print the same report, `readLines`: per file its name, the sum of the
+    sizes of its data blocks, their number and the position of its leader (quiet: the names). -/
 theorem third_party_tape_read_exactly (pre tail : Bytes) (bs : List Spec.K7.WBlock) (fs : List TFile)
     (hpre : 60 ∉ pre) (ht : 60 ∉ tail) (hwf : ∀ b ∈ bs, b.wf)
     (hfiles : bs.map (fun b => Spec.K7.frame b.ty b.payload) = fs.flatMap TFile.frames)
@@ -172,24 +185,19 @@ theorem third_party_tape_read_exactly (pre tail : Bytes) (bs : List Spec.K7.WBlo
     (extract v archive into (Spec.K7.render pre bs ++ tail)).status = .ret 0
     ∧ (extract v archive into (Spec.K7.render pre bs ++ tail)).writes
         = fs.map (fun f => (pathJoin (targetDirOf archive into) f.path, f.chunks.flatten))
-    ∧ (enumerate false (Spec.K7.render pre bs ++ tail)).status = .ret 0
-    ∧ (enumerate false (Spec.K7.render pre bs ++ tail)).out = fs.map TFile.path := by
+    ∧ (extract v archive into (Spec.K7.render pre bs ++ tail)).out = readLines v 0 fs
+    ∧ (enumerate v (Spec.K7.render pre bs ++ tail)).status = .ret 0
+    ∧ (enumerate v (Spec.K7.render pre bs ++ tail)).out = readLines v 0 fs := by
   have hread := read_blocks_padded pre tail bs hpre ht hwf
   rw [hfiles] at hread
-  have hx : ∀ (v : Bool) (dir : Str), ∃ s', readLoop true dir { l := { verbose := v } } (readAll (Spec.K7.render pre bs ++ tail)) = (.ret 0, s')
-      ∧ s'.writes = fs.map (fun f => (pathJoin dir f.path, f.chunks.flatten))
-      ∧ (v = false → s'.out = fs.map TFile.path) := by
-    intro v dir
-    rw [hread]
-    obtain ⟨s', e, hw, ho⟩ := readLoop_tfiles dir fs { l := { verbose := v } } hn
-    exact ⟨s', e, by rw [hw]; simp, fun hv => by rw [ho hv]; simp⟩
-  obtain ⟨sx, ex, hwx, _⟩ := hx v (targetDirOf archive into)
-  obtain ⟨sq, eq, _, hoq⟩ := hx false []
-  have hl := list_extract_agree_dir false [] _ (by rw [eq])
-  refine ⟨?_, ?_, hl.1, ?_⟩
+  obtain ⟨sx, ex, hwx, hox⟩ := readLoop_tfiles (targetDirOf archive into) fs { l := { verbose := v } } hn
+  rw [← hread] at ex
+  have hl := list_extract_agree_dir v (targetDirOf archive into) _ (by rw [ex])
+  refine ⟨?_, ?_, ?_, hl.1, ?_⟩
   · simp only [extract]; rw [ex]
-  · simp only [extract]; rw [ex]; exact hwx
-  · rw [hl.2, eq]; exact hoq rfl
+  · simp only [extract]; rw [ex]; simpa using hwx
+  · simp only [extract]; rw [ex]; simpa using hox
+  · rw [hl.2, ex]; simpa using hox
 
 /-- non-vacuity: one file cut into blocks of 3, 0 and 1 bytes, leaders of 3 and 40 bytes, gaps -/
 example : let f : TFile := ⟨str "A", str "BAS", 0, 0, [[1, 2, 3], [], [60]]⟩
